@@ -66,8 +66,26 @@ def slice_has_call_def(sl, callee, targ=None):
     return None
 
 
+_CUR = {"prog": None}
+
+
+def set_current_program(prog):
+    _CUR["prog"] = prog
+
+
+def _gone_private_helper(r):
+    """a required `call:<private helper>` whose helper no longer exists at all (inlined, split or renamed by a refactor):
+    the requirement is void - the leaf atoms required next to it still have to be there"""
+    from .rules.private_anchors import PRIVATE_ANCHORS
+    prog = _CUR["prog"]
+    if prog is None or not r.startswith("call:"):
+        return False
+    k = r[5:]
+    return k in PRIVATE_ANCHORS and k not in prog.bodies
+
+
 def missing_atoms(atoms, required):
-    return [r for r in required if r not in atoms]
+    return [r for r in required if r not in atoms and not _gone_private_helper(r)]
 
 
 def fmt_missing(miss):
@@ -233,8 +251,7 @@ def aggregate_fields(ctx, rid, key, adt, table, rule="T1", must_exist=True, fami
     if must_exist and not found:
         o = ctx.ob("%s.%s.site" % (rid, short), "T8", key, "construction of %s is found in %s" % (short, key.split("::")[-1]))
         if ctx.prog.bodies.get(key) is None:
-            o.status = "anchor-missing"
-            o.detail = "function %s not found" % key
+            ctx.anchor_gone(o, key)
         else:
             ctx.bad(o, "no %s is constructed in %s" % (short, key))
     return found
@@ -244,8 +261,21 @@ def controlling_sources(fd, ins):
     """for every switch the instruction is (transitively) control dependent on: the call whose result is switched on
     (through discriminant reads, copies and negations), or a description of the condition"""
     out = []
-    ctrl = fd.slice(seed_blocks=[ins.bb])
-    for sw in ctrl["switches"]:
+    cd = fd.cfg.cdep()
+    anc = []
+    seen = set()
+    wl = [ins.bb]
+    while wl:
+        b = wl.pop()
+        for a in cd.get(b, ()):
+            if a not in seen:
+                seen.add(a)
+                anc.append(a)
+                wl.append(a)
+    for a in anc:
+        if a not in fd.switches:
+            continue
+        sw = fd.switches[a][0]
         op = sw.ops[0]
         d = direct_def_instr(fd, op)
         guard = 0
@@ -272,7 +302,7 @@ def controlling_sources(fd, ins):
 
 
 def _has(at, r):
-    return r in at or (r.startswith("call:") and ("decl:" + r[5:]) in at)
+    return r in at or (r.startswith("call:") and ("decl:" + r[5:]) in at) or _gone_private_helper(r)
 
 
 def call_arg_provenance(ctx, rid, key, callee, table, rule="T1", families=True, which="all"):
@@ -306,8 +336,7 @@ def call_arg_provenance(ctx, rid, key, callee, table, rule="T1", families=True, 
     if not found:
         o = ctx.ob("%s.%s.site" % (rid, callee.split("::")[-1]), "T8", key, "a call to %s is found in %s" % (callee.split("::")[-1], key.split("::")[-1]))
         if ctx.prog.bodies.get(key) is None:
-            o.status = "anchor-missing"
-            o.detail = "function %s not found" % key
+            ctx.anchor_gone(o, key)
         else:
             ctx.bad(o, "no call to %s in %s" % (callee, key))
     return found
@@ -318,8 +347,7 @@ def positional_ctor(ctx, oid, key, adt, expected, rule="T7"):
     from . import prov
     o = ctx.ob(oid, rule, key, "%s stores each parameter in the corresponding field of %s" % (key.split("::")[-1], adt.split("::")[-1]))
     if ctx.prog.bodies.get(key) is None:
-        o.status = "anchor-missing"
-        o.detail = "function %s not found" % key
+        ctx.anchor_gone(o, key)
         return
     ctx.functions.add(key)
     cm = prov.ctor_map(ctx.prog, key, adt)
@@ -445,3 +473,35 @@ def deep_atoms(an, fd, seed_locals, depth=0, control=False):
 def deep_operand_atoms(an, fd, ins, op, control=False):
     seeds = fd.operand_uses(op) | (fd.bases(op.place.local) if op.place is not None else set())
     return deep_atoms(an, fd, seeds, control=control)
+
+
+def direct_chain(fd, op, follow=None, limit=14):
+    """callee names along the *direct* provenance of an operand (flow-sensitive in effect: only single-definition
+    locals, references, dereferences and copies are followed; at a call the receiver is followed unless `follow`
+    names another argument index for that callee)"""
+    from .facts import Operand
+    follow = follow or {}
+    out = []
+    cur = op
+    n = 0
+    while cur is not None and cur.place is not None and n < limit:
+        n += 1
+        l = cur.place.local
+        ds = [d for d in fd.defs.get(l, ()) if d.kind != "param"]
+        if len(ds) != 1:
+            break
+        i = ds[0].instr
+        if i is None:
+            break
+        if i.kind == "call":
+            out.append(i.callee or "?")
+            ai = follow.get(i.callee, 0)
+            cur = i.args[ai] if ai < len(i.args) else None
+        elif i.kind == "assign" and i.rv_kind() in ("use", "cast") and i.ops:
+            cur = i.ops[0]
+        elif i.kind == "assign" and i.rv_kind() == "ref":
+            p = i.ref_place()
+            cur = Operand({"k": "copy", "pl": {"l": p.local, "p": []}})
+        else:
+            break
+    return out
